@@ -299,6 +299,7 @@ func TestVerif(t *testing.T) {
 	partWorkers(shard, shards)
 	partNestedGlobs(shard, shards)
 	partLargeWorkspace(shard, shards)
+	partStarlarkPackages(shard, shards)
 	t3 := time.Now()
 	if shard == 0 {
 		vrep.Set("shard0_seconds_agree_corrupt_workers", []float64{t1.Sub(t0).Seconds(), t2.Sub(t1).Seconds(), t3.Sub(t2).Seconds()})
